@@ -101,6 +101,42 @@ def workload(ctx):
                       "L": float(10 ** rng.uniform(1, 3)), "py": float(rng.uniform(0.01, 0.5)), "pz": float(rng.uniform(0.01, 0.5)),
                       "y0": float(rng.uniform(-2000, 2000)), "z0": float(rng.uniform(-2000, 2000)),
                       "lam": float(rng.uniform(0.1, 1.0)), "own_tilt": bool(i % 3 == 0)}
+    from vfw import gen
+    rng = ctx.rng(2)
+    for i in range(ctx.n(400, 6000)):
+        c, _ = gen.cell(rng, gen.CELL_STRATA[i % len(gen.CELL_STRATA)])
+        yield "pipeline", {"cell": c, "hkl": gen.hkl(rng, 4), "lam": float(rng.uniform(0.1, 0.5)), "q": [float(x) for x in rng.normal(size=4)],
+                           "tilts": [float(x) for x in rng.uniform(-0.3, 0.3, 2)], "tilt": [float(x) for x in rng.uniform(-0.3, 0.3, 3)],
+                           "t": [float(x) for x in rng.uniform(-2, 2, 3)], "L": float(10 ** rng.uniform(1, 3)),
+                           "py": float(rng.uniform(0.01, 0.5)), "pz": float(rng.uniform(0.01, 0.5)),
+                           "y0": float(rng.uniform(-2000, 2000)), "z0": float(rng.uniform(-2000, 2000))}
+
+
+def case_pipeline(ctx, p):
+    """the way the functions are used in a forward model: cell -> B -> g = U.B.hkl -> (omega, eta) from the solver ->
+    pixel from the rotated g-vector (det_coor) and from (2theta, eta) (det_coor2); both must be the same pixel"""
+    mon, D, T = ctx.mon, ctx.D, ctx.T
+    c, h, lam = p["cell"], p["hkl"], p["lam"]
+    U = oracle.quat_to_mat(np.array(p["q"]))
+    tth = T.tth(c, h, lam)
+    if not (math.radians(0.5) < tth < math.radians(60)):
+        return
+    g = U @ (T.form_b_mat(c) @ np.asarray(h, float))                # 2 pi convention
+    gs = g * lam / (4 * math.pi)                                    # length sin(theta), what the solver wants
+    chi, wedge = p["tilts"]
+    try:
+        om, eta = T.find_omega_general(gs, tth, chi, wedge)
+    except AssertionError:
+        return
+    R = T.detect_tilt(*p["tilt"])
+    t = p["t"]
+    mon.nontriv(c, h, p["q"], chi, wedge)
+    for w, e in zip(om, eta):
+        Gt = T.form_omega_mat_general(w, chi, wedge) @ g
+        a = D.det_coor(Gt, math.cos(tth), lam, p["L"], p["py"], p["pz"], p["y0"], p["z0"], R, t[0], t[1], t[2])
+        b = D.det_coor2(tth, e, p["L"], p["py"], p["pz"], p["y0"], p["z0"], R, t[0], t[1], t[2])
+        mon.close("pipeline:det_coor(Omega.g) = det_coor2(2theta, eta of the solver)", a, b, rtol=1e-8, atol=1e-8)
+        mon.config("pipeline:solutions")
 
 
 def case_ray(ctx, p):
@@ -132,4 +168,4 @@ def case_ray(ctx, p):
                   expected="on the ray from the grain along v, in the detector plane", detail=name)
 
 
-CASES = {"ray": case_ray}
+CASES = {"ray": case_ray, "pipeline": case_pipeline}
